@@ -24,6 +24,7 @@ func init() {
 	sim.RegisterKind("gen-port-shared", "C20")
 	sim.RegisterKind("gen-no-error", "C20")
 	sim.RegisterKind("gen-spurious-error", "C20")
+	sim.RegisterKind("gen-leak-on-error", "C20", "C15")
 	sim.RegisterKind("gen-panic", "C20")
 	sim.RegisterKind("gen-intn-arg", "C20")
 }
@@ -97,6 +98,16 @@ func runC20(t *testing.T, rng *rand.Rand, rec *sim.Rec, tier string, caseNo int)
 	relayIP := net.IPv4(203, 0, 113, 7).To4()
 	if v6 {
 		relayIP = net.ParseIP("2001:db8:ffff::7")
+	}
+	if caseNo%7 == 3 {
+		// the operator advertises an address of the other family than the one the sockets are bound
+		// in (a NAT64/46 front, or simply a dual-stack wildcard bind): the generators advertise
+		// what they are told to
+		if v6 {
+			relayIP = net.IPv4(203, 0, 113, 7).To4()
+		} else {
+			relayIP = net.ParseIP("2001:db8:ffff::7")
+		}
 	}
 	bounds := []int{1, 2, 1023, 1024, 32767, 32768, 49152, 65534, 65535}
 	lo, hi := pick(rng, bounds), pick(rng, bounds)
@@ -206,6 +217,7 @@ func runC20(t *testing.T, rng *rand.Rand, rec *sim.Rec, tier string, caseNo int)
 		}
 		conf := turn.AllocateListenerConfig{Network: netw(tcp), UserID: "u", Realm: "r", RequestedPort: req}
 		rnd.args = nil
+		udpBefore, tcpBefore := n.Bound()
 		var adv net.Addr
 		var err error
 		var closer interface{ Close() error }
@@ -235,6 +247,10 @@ func runC20(t *testing.T, rng *rand.Rand, rec *sim.Rec, tier string, caseNo int)
 		rec.FP("%s/%s/req=%v/%s/single=%v/max65535=%v", gut.name, netw(tcp), req != 0, outcome, lo == hi, hi == 65535)
 		rec.Ev("generator-calls")
 		if err != nil {
+			// a refused request leaves nothing bound behind
+			if u, l := n.Bound(); u != udpBefore || l != tcpBefore {
+				rec.Violate("gen-leak-on-error", gut.name, "%s returned an error (%v) and left a socket bound: %d->%d UDP sockets, %d->%d listeners", gut.name, err, udpBefore, u, tcpBefore, l)
+			}
 			// an error is legitimate only when binding was impossible
 			inUse := func(p int) bool {
 				if tcp {
